@@ -320,8 +320,33 @@ def mk_exponent(rank, ptype, override):
   return t
 
 
+def mk_skip(rank, best_effort):
+  """Which parameters are preconditioned at all (documentation of skip_preconditioning_rank_lt / _dim_size_gt): decided
+  on the parameter's OWN shape - rank below the threshold, or some dimension above the size threshold."""
+
+  def t(ctx, it):
+    m = it.load_module(D.DS)
+    dims = tuple(spec.fresh_int(f"d{a}", lo=1) for a in range(rank))
+    rank_lt = spec.fresh_int("skip_preconditioning_rank_lt", lo=0)
+    dim_gt = spec.fresh_int("skip_preconditioning_dim_size_gt", lo=1)
+    opt = m.distributed_shampoo(0.1, block_size=spec.fresh_int("block_size", lo=1), best_effort_shape_interpretation=best_effort,
+                                skip_preconditioning_rank_lt=rank_lt, skip_preconditioning_dim_size_gt=dim_gt)
+    skip = opt.update.env.vars["_skip_preconditioning"]
+    got = skip(T.opaque("param", dims))
+    want = sym.sor(rank < rank_lt, *[d > dim_gt for d in dims]) if dims else (rank < rank_lt)
+    got_b = got if isinstance(got, (bool, sym.Sym)) else bool(got)
+    ctx.oblige("_skip_preconditioning.post: skipped iff rank(param) < skip_preconditioning_rank_lt or some dimension of the "
+               "parameter's own shape > skip_preconditioning_dim_size_gt", sym.sand(sym.implies(got_b, want), sym.implies(want, got_b)),
+               detail=f"rank={rank} best_effort_shape_interpretation={best_effort}")
+
+  return t
+
+
 def tasks(tier):
   ts = []
+  for r in (0, 1, 2, 3):
+    for be in (True, False):
+      ts.append(Task(f"skip decision[rank={r},best_effort={be}]", mk_skip(r, be)))
   for r in (1, 2, 3, 4):
     for pt in ("ALL", "INPUT", "OUTPUT"):
       for ov in (False, True):
